@@ -1,0 +1,30 @@
+//go:build verif
+
+package bloomsearch
+
+import (
+	"io"
+	"os"
+)
+
+// Test-only access for the store family of the verification harness. No logic.
+
+// VerifSetFileNameDraw replaces the CreateFile name draw (forced collisions).
+func (fs *FileSystemDataStore) VerifSetFileNameDraw(draw func() string) { fs.drawFileName = draw }
+
+// VerifRootDir returns the store's directory.
+func (fs *FileSystemDataStore) VerifRootDir() string { return fs.rootDir }
+
+// VerifWriterFile returns the open temp-file handle behind a writer returned by
+// FileSystemDataStore.CreateFile (nil for any other writer). Closing it early
+// makes the writer's next Sync fail, which is how the harness reaches Close's
+// sync-failure branch on a real filesystem.
+func VerifWriterFile(w io.WriteCloser) *os.File {
+	if f, ok := w.(*renameOnCloseFile); ok {
+		return f.file
+	}
+	return nil
+}
+
+// VerifMaxCreateFileAttempts exposes the redraw bound of CreateFile.
+const VerifMaxCreateFileAttempts = maxCreateFileAttempts
